@@ -146,6 +146,19 @@ Theorem C47_csv3_rejects :
 Proof. exact csv3_rejects. Qed.
 Print Assumptions C47_csv3_rejects.
 
+(* csv, 2-D polyline format  FID, PT_X, PT_Y  (reader only; the library has no writer for
+   it) — PARTIAL: the rows of ONE polyline (n >= 2 rows with the same id) are paired into the
+   n-1 consecutive segments (i, i+1).  Not proved: several polylines in one file (ids are
+   visited in increasing order, rows of one id are assumed contiguous by the code), and the
+   point uniquification / network construction after it (the same tail as the straight-line
+   reader, proved there); those are covered by the execution correspondence only. *)
+Theorem C47_polyline_segments_partial :
+  forall (fi : Z) (n : nat),
+    2 <= n ->
+    poly_edges (repeat fi n) fi = Ok (map (fun i => (i, S i)) (seq 0 (n - 1))).
+Proof. exact poly_edges_single. Qed.
+Print Assumptions C47_polyline_segments_partial.
+
 (* ---- non-vacuity ------------------------------------------------------------------- *)
 (* txt: one column "a" with three values (the input that used to come back as a scalar),
    and a 1x1 table; digits stand for themselves. *)
